@@ -1,9 +1,12 @@
 #!/bin/sh
 # Sensitivity regression: every seeded change under /verif/seeded must be reported by the check of its property.
-# usage: tools/seeded_all.sh [scale]     (applies each patch to /repo in turn, always reverts)
+# usage: tools/seeded_all.sh [scale [glob]]     (applies each patch to /repo in turn, always reverts; glob selects
+# directories under seeded/, e.g. 'C*-1[12]' for the seventh wave)
 SCALE="${1:-0.6}"
+GLOB="${2:-}"
 rc=0
-for d in /verif/seeded/C*-* /verif/seeded/H-*; do
+if [ -n "$GLOB" ]; then LIST=$(ls -d /verif/seeded/$GLOB); else LIST=$(ls -d /verif/seeded/C*-* /verif/seeded/H-*); fi
+for d in $LIST; do
   id=$(basename "$d" | sed 's/^H-//' | cut -d- -f1)
   out=$(VERIF_WALL_SCALE=$SCALE /verif/tools/seeded_run.sh "$d/patch.diff" "$id" 2>&1)
   if echo "$out" | grep -q "^VIOLATION property=$id\|^tlsim: violation class="; then
